@@ -146,7 +146,7 @@ func runC12(r *Run, replay *Case) {
 				}
 				return &Case{Name: fmt.Sprintf("%s via %s, %s %d", p.desc, e, kind, k), Op: true,
 					Input: map[string]any{"op": "writer", "prog": p.desc, "entry": e, "kind": mkind, "case": kind, "k": k, "fails": err != nil, "chunks": chunks, "failAt": failAt, "cancelled": kind == "cancelled"},
-					Key: fmt.Sprintf("%s|%s|%s|%d", p.desc, e, kind, k), Tags: []string{"entry:" + e, "prog:" + p.desc, "kind:" + kind}, Oracle: &Verdict{OK: true}}
+					Key:   fmt.Sprintf("%s|%s|%s|%d", p.desc, e, kind, k), Tags: []string{"entry:" + e, "prog:" + p.desc, "kind:" + kind}, Oracle: &Verdict{OK: true}}
 			}
 			c := mk("healthy", -1)
 			c.Impl = map[string]any{"err": err != nil, "len": len(full)}
